@@ -9,6 +9,7 @@ import (
 	"google.golang.org/grpc/codes"
 	"google.golang.org/grpc/status"
 	"google.golang.org/protobuf/proto"
+	"google.golang.org/protobuf/types/known/fieldmaskpb"
 	"google.golang.org/protobuf/types/known/timestamppb"
 
 	"github.com/smart-core-os/sc-api/go/traits"
@@ -304,6 +305,8 @@ func (m *Model) deleteMode(id string, opts ...resource.WriteOption) error {
 // UpdateMode will modify one of the modes stored in this device.
 // The mode to be modified is specified by mode.Id, which must be set.
 // Fields to be modified can be selected using mask - to modify all fields, pass a nil mask.
+// If the update sets Normal == true, and the device already has another normal mode, then ErrNormalModeExists will
+// result.
 func (m *Model) UpdateMode(mode *traits.ElectricMode, opts ...resource.WriteOption) (*traits.ElectricMode, error) {
 	m.mu.Lock()
 	defer m.mu.Unlock()
@@ -311,11 +314,33 @@ func (m *Model) UpdateMode(mode *traits.ElectricMode, opts ...resource.WriteOpti
 }
 
 func (m *Model) updateMode(mode *traits.ElectricMode, opts ...resource.WriteOption) (*traits.ElectricMode, error) {
+	// if this update makes an existing mode normal, check that there isn't another normal mode
+	if mode.Normal && writesNormal(resource.ComputeWriteConfig(opts...).UpdateMask) {
+		if normal, ok := m.normalMode(); ok && normal.Id != mode.Id {
+			if _, exists := m.findMode(mode.Id); exists {
+				return nil, ErrNormalModeExists
+			}
+		}
+	}
+
 	msg, err := m.modes.Update(mode.Id, mode, opts...)
 	if err != nil {
 		return nil, err
 	}
 	return msg.(*traits.ElectricMode), nil
+}
+
+// writesNormal reports whether an update using mask writes the normal field of a mode.
+func writesNormal(mask *fieldmaskpb.FieldMask) bool {
+	if mask == nil {
+		return true // all fields
+	}
+	for _, path := range mask.Paths {
+		if path == "normal" {
+			return true
+		}
+	}
+	return false
 }
 
 // PullModes subscribes to changes to modes. Creation, modification or deletion of a mode on this device will send
